@@ -4,7 +4,7 @@ An arm is evaluated by the abstract interpreter with its binding as the symbolic
 Helpers introduced by a refactor are already expanded (facts.py), logging is skipped (absx), so a rule written over these
 paths sees what the arm does, not how it is spelled."""
 import absx, hirq, sem, anchors
-from facts import walk
+from facts import walk, callee_of
 
 ARM = ('param', 'ARM')
 SELF = ('param', 'self')
@@ -47,13 +47,15 @@ def idset_member_range(C):
         return None
     return lambda node: rng if node.get('k') == 'MethodCall' and C.is_idset_place(node['recv']) else None
 
-def arm_paths(C, role, field_hook=None, locals_=None, **kw):
+def arm_paths(C, role, field_hook=None, locals_=None, answer=None, **kw):
     """The enumerated paths of the select! arm `role`.  `locals_` ({binding id: term}) gives locals of the enclosing function that
     are declared outside the arm the value they are to have when the arm is entered (a flag the loop carries: a rule evaluates the
-    arm from each value it argues about); without it such a local reads as ('unbound', binding, name)."""
+    arm from each value it argues about); without it such a local reads as ('unbound', binding, name).  `answer` fixes what the
+    arm's future completed with (a constructor term such as None or Some(Err(e))) instead of the symbolic value ARM: the arm's
+    pattern and every test of the handler on it are then decided."""
     f = C.facts
     L = C.loop
-    arm = C.arms[role]
+    arm = C.arms[role] if isinstance(role, str) else role
     if 'member_range' not in kw:
         kw['member_range'] = idset_member_range(C)
     I = absx.Interp(f, L, field_hook=field_hook, result_combinators=True, **kw)
@@ -65,10 +67,150 @@ def arm_paths(C, role, field_hook=None, locals_=None, **kw):
     env.update(locals_ or {})
     st = absx.St(env)
     outs = []
-    for kind, s2 in I.match(arm['pat'], ARM, st):
+    for kind, s2 in I.match(arm['pat'], ARM if answer is None else answer, st):
         if kind != 'no':
             outs += I.ev(arm['body'], s2)
     return outs, I
+
+
+# ---------------------------------------------------------------------------------------------------------------------------
+# What tokio::select! does with the value a branch's future completes with.  The macro's expansion is in the typed HIR of the
+# loop body: a poll closure with one piece of code per branch -
+#     if disabled & mask == mask { continue }                 (the branch is switched off for this call of select!)
+#     let out = match Future::poll(fut, cx) { Ready(out) => out, Pending => { is_pending = true; continue } };
+#     disabled |= mask;
+#     match &out { <the branch's pattern> => {}, _ => continue }
+#     return Ready(Out::_n(out));
+# - and, after the poll loop, `if is_pending { Pending } else { Ready(Out::Disabled) }`; outside the closure
+#     match output { Out::_n(<pattern>) => <handler>, .., Out::Disabled => <else branch, or a panic when there is none> }.
+# So a value that the branch's pattern does not match never reaches a handler: the branch is only switched off for this call, the
+# other branches go on being polled, and `else` runs only when every branch is switched off in the same call.  Nothing of this is
+# assumed here: the branch's piece of the poll closure is *interpreted* with the answer of `Future::poll` fixed to Ready(<value>),
+# and what comes out - `return Ready(Out::_n(value))` or `continue` - is read off the enumerated paths.
+POLL = 'core::future::future::Future::poll'
+NONE = ('ctor', 'None', ())
+
+def main_loop(C):
+    """the `loop` that holds the select! of the driver"""
+    m = C.arms['request']['match']
+    for n, c in walk(C.loop.root):
+        if n['k'] == 'Loop' and any(x is m for x, _ in walk(n)):
+            return n
+    return None
+
+def _arm(C, role):
+    return C.arms[role] if isinstance(role, str) else role
+
+def branch_code(C, role):
+    """The code of the poll closure that polls the branch `role` and decides what becomes of its answer: the one match arm of the
+    expansion that builds `Out::_n` for this branch's n and for no other (by what it constructs, not by the names the macro uses)."""
+    from facts import AnchorMissing
+    k = _arm(C, role)['index']
+    def builds(e):
+        out = set()
+        for n, c in walk(e):
+            if n['k'] == 'Call':
+                cal = callee_of(n) or ''
+                if '__tokio_select_util::Out::_' in cal:
+                    out.add(cal.rsplit('_', 1)[1])
+        return out
+    cands = []
+    def rec(n):
+        if isinstance(n, dict):
+            if n.get('k') == 'Match':
+                for a in n['arms']:
+                    if builds(a['body']) == {str(k)}:
+                        cands.append(a['body'])
+                        return      # the outermost arm that is about this branch alone
+            for v in n.values():
+                rec(v)
+        elif isinstance(n, list):
+            for v in n:
+                rec(v)
+    rec(C.loop.root)
+    if len(cands) != 1:
+        raise AnchorMissing('select! expansion: the poll code of branch %d was not found (%d candidates)' % (k, len(cands)))
+    return cands[0]
+
+def select_answer(C, role, answer):
+    """[(fate, path)] - what the select! of the driver loop does when the future of the branch `role` completes with `answer`:
+    'delivered' (the poll closure returns Ready(Out::_n(answer)): the handler runs), 'consumed' (the branch was polled, got the
+    answer and the closure went on to the next branch: the answer reaches no handler), 'unread' (anything else: fail closed).
+    Paths on which the branch was not polled at all (switched off on entry) are left out."""
+    f = C.facts
+    k = _arm(C, role)['index']
+    code = branch_code(C, role)
+    def polled(I, cal, args, node, st):
+        if node.get('k') == 'Call' and (node.get('f') or {}).get('def') == POLL:
+            return [absx.Out('val', ('ctor', 'Poll::Ready', (answer,)), st.event(('polled', k)))]
+        return None
+    I = absx.Interp(f, C.loop, summaries=[polled], result_combinators=True)
+    res = []
+    for o in I.ev(code, absx.St({})):
+        if not any(e[0] == 'polled' for e in o.st.ev):
+            if o.kind != 'cont':
+                res.append(('unread', o))
+            continue
+        v = o.val
+        if o.kind == 'ret' and v[0] == 'ctor' and v[1].endswith('Poll::Ready') and len(v[2]) == 1 and v[2][0][0] == 'ctor' \
+                and v[2][0][1].endswith('Out::_%d' % k) and v[2][0][2] == (answer,):
+            res.append(('delivered', o))
+        elif o.kind == 'cont':
+            res.append(('consumed', o))
+        else:
+            res.append(('unread', o))
+    return res
+
+def else_branch(C):
+    """(exists, leaves the loop): the `Out::Disabled` arm of the select!'s outer match - the user's `else` branch, or the panic the
+    macro puts there when there is none - evaluated"""
+    m = C.arms['request']['match']
+    ml = main_loop(C)
+    for a in m['arms']:
+        p = a['pat']
+        d = (p.get('e') or {}).get('def') or p.get('def') or ''
+        if d.endswith('__tokio_select_util::Out::Disabled'):
+            outs = absx.Interp(C.facts, C.loop, result_combinators=True).ev(a['body'], absx.St({}))
+            live = [o for o in outs if o.kind != 'div']
+            return bool(live), bool(live) and all(leaves_driver_loop(C, o, ml) for o in live)
+    return False, False
+
+def leaves_driver_loop(C, o, ml=None):
+    """the path of an arm ends the driver loop: `return`, or `break` out of the loop that holds the select!"""
+    ml = ml if ml is not None else main_loop(C)
+    return o.kind == 'ret' or (o.kind == 'brk' and (o.target is None or (ml is not None and o.target == ml.get('id'))))
+
+def answer_fate(C, role, answer):
+    """{'consumed': [paths of the poll code], 'unread': [..], 'handler': [paths of the handler run on the answer] | None}"""
+    fates = select_answer(C, role, answer)
+    out = {'consumed': [o for k, o in fates if k == 'consumed'], 'unread': [o for k, o in fates if k == 'unread'], 'handler': None,
+           'delivered': [o for k, o in fates if k == 'delivered']}
+    if out['delivered']:
+        out['handler'] = [o for o in arm_paths(C, role, answer=answer)[0]]
+    return out
+
+def why_not_left(C, role):
+    """The explanation that goes with a consumed answer: when `else` can run at all."""
+    has_else, else_leaves = else_branch(C)
+    me = _arm(C, role)
+    names = {id(a): r for r, a in C.arms.items() if isinstance(a, dict)}
+    never = []
+    pre = hirq.select_preconditions(main_loop(C) or C.loop.root)
+    for r, a in C.arms.items():
+        for arm in (a if isinstance(a, list) else [a]):
+            if arm is me:
+                continue
+            cond = pre[arm['index']] if arm['index'] < len(pre) else None
+            always_on = cond is not None and cond['k'] == 'Lit' and cond.get('v') is True
+            refutable = any(k == 'consumed' for k, _o in select_answer(C, arm, ('param', 'ANS')))
+            if always_on and not refutable:
+                never.append(names.get(id(arm), 'other'))
+    if not has_else:
+        return 'the select! has no `else` branch'
+    if never:
+        return ('the `else` branch runs only when every branch is switched off in the same call, and the %s branch%s can never be (irrefutable pattern, '
+                'no precondition): `else` is dead code' % (' / '.join(sorted(never)), 'es' if len(never) > 1 else ''))
+    return 'the `else` branch runs only once every other branch has been switched off in the same call as well (each of their channels closed): not while a handle is alive'
 
 def map_calls(C, o, which, names=None):
     """(index, method name, args, node) of the calls on a routing map ('result' / 'search') or the in-use set ('idset')."""
@@ -83,8 +225,44 @@ def map_calls(C, o, which, names=None):
             out.append((i, name, args, node))
     return out
 
+def payload_ty(sender_ty):
+    """the message type of a channel endpoint type `S<T>`"""
+    return sender_ty[sender_ty.index('<') + 1:-1] if '<' in sender_ty and sender_ty.endswith('>') else None
+
+def hands_over(node, sender_ty):
+    """node is a delivery call, by role: a method call on a value of the sender type that is given a message of the channel's own
+    message type by value (args[1] of the call event) - `send`, `try_send`, `blocking_send`, `send_timeout`, whatever the channel
+    flavour calls it.  What the call's *failure* means is a separate question (delivery_failure_means)."""
+    if node.get('k') != 'MethodCall' or sem.recv_ty(node) != sender_ty:
+        return False
+    args = node.get('args') or []
+    return bool(args) and (args[0].get('ty') or '') == payload_ty(sender_ty)
+
 def sends(o, sender_ty):
-    return [(i, args, node) for i, cal, args, node in sem.calls(o, lambda c: c.rsplit('::', 1)[-1] == 'send') if sem.recv_ty(node) == sender_ty]
+    """[(event index, args, node)] of the delivery calls of a path on a sender of the given type (args[0] the sender, args[1] the message)"""
+    return [(i, args, node) for i, cal, args, node in sem.calls(o, lambda c: True) if hands_over(node, sender_ty) and len(args) >= 2]
+
+# What the failure of a delivery call says about the receiving end.  One line per library function, from its documentation
+# (tokio 1.x, sync::mpsc / sync::oneshot):
+#   UnboundedSender::send(&self, T) -> Result<(), SendError<T>>      "fails only if the receive half has been closed or dropped"; never waits
+#   Sender::send(&self, T) -> impl Future<Output = Result<(), SendError<T>>>   waits for capacity; resolves to Err only when the receiver is closed
+#   Sender::try_send(&self, T) -> Result<(), TrySendError<T>>        Err(Full(T)) when the queue has no room, Err(Closed(T)) when the receiver is gone
+#   Sender::send_timeout                                              Err(Timeout(T)) when no room became free in time, Err(Closed(T))
+#   Sender::blocking_send                                             blocks the thread (panics inside a runtime); Err only when closed
+#   oneshot::Sender::send(self, T) -> Result<(), T>                  Err only when the receiver was dropped (or closed)
+DELIVERY = {
+    'tokio::sync::mpsc::unbounded::UnboundedSender::<T>::send': ('closed', False),
+    'tokio::sync::mpsc::bounded::Sender::<T>::send': ('closed', True),
+    'tokio::sync::mpsc::bounded::Sender::<T>::try_send': ('full-or-closed', False),
+    'tokio::sync::mpsc::bounded::Sender::<T>::send_timeout': ('timeout-or-closed', True),
+    'tokio::sync::mpsc::bounded::Sender::<T>::blocking_send': ('closed', True),
+    'tokio::sync::oneshot::Sender::<T>::send': ('closed', False),
+}
+
+def delivery_failure_means(callee):
+    """(what an Err of the delivery call `callee` means: 'closed' = only that the receiver is gone | 'full-or-closed' | .. | None when
+    the function is not in the table, whether the call can make the caller wait)"""
+    return DELIVERY.get(callee, (None, None))
 
 
 # the response arm's binding is Option<Result<(id, (protocolOp, controls)), io::Error>>: the decoded message and its ID
